@@ -379,3 +379,8 @@ impl From<LinkBehavior> for WalkBehavior {
         }
     }
 }
+
+#[cfg(all(kani, olson_sean_k_wax_verif))]
+mod verif_kani {
+    include!(concat!(env!("WAX_VERIF_DIR"), "/kani/walk_behavior.rs"));
+}
